@@ -825,7 +825,38 @@ func realBig(res *hx.Result, root string) {
 	}
 }
 
+// walOverlay returns the committed page images of the live WAL (frames whose salts match the
+// header, up to the last commit frame): the source database is the file overlaid by these.
+func walOverlay(walPath string, ps int) (map[uint32][]byte, uint32) {
+	b, err := os.ReadFile(walPath)
+	if err != nil || len(b) < litestream.WALHeaderSize {
+		return nil, 0
+	}
+	salt := b[16:24]
+	frame := litestream.WALFrameHeaderSize + ps
+	pending := map[uint32][]byte{}
+	out := map[uint32][]byte{}
+	var commit uint32
+	for off := litestream.WALHeaderSize; off+frame <= len(b); off += frame {
+		h := b[off : off+litestream.WALFrameHeaderSize]
+		if !bytes.Equal(h[8:16], salt) {
+			break
+		}
+		pgno := binary.BigEndian.Uint32(h[0:])
+		pending[pgno] = b[off+litestream.WALFrameHeaderSize : off+frame]
+		if sz := binary.BigEndian.Uint32(h[4:]); sz != 0 {
+			for k, v := range pending {
+				out[k] = v
+			}
+			pending = map[uint32][]byte{}
+			commit = sz
+		}
+	}
+	return out, commit
+}
+
 func compareFiles(src, dst string, ps int, lock uint32) string {
+	overlay, wcommit := walOverlay(src+"-wal", ps)
 	a, err := os.Open(src)
 	if err != nil {
 		return err.Error()
@@ -838,13 +869,25 @@ func compareFiles(src, dst string, ps int, lock uint32) string {
 	defer b.Close()
 	sa, _ := a.Stat()
 	sb, _ := b.Stat()
-	if sa.Size() != sb.Size() {
-		return fmt.Sprintf("restored size %d != source size %d", sb.Size(), sa.Size())
+	srcSize := sa.Size()
+	if wcommit != 0 {
+		srcSize = int64(wcommit) * int64(ps)
+	}
+	if srcSize != sb.Size() {
+		return fmt.Sprintf("restored size %d != source size %d", sb.Size(), srcSize)
 	}
 	x, y := make([]byte, ps), make([]byte, ps)
-	for p := uint32(1); int64(p)*int64(ps) <= sa.Size(); p++ {
-		if _, err := io.ReadFull(a, x); err != nil {
-			return err.Error()
+	for p := uint32(1); int64(p)*int64(ps) <= srcSize; p++ {
+		for i := range x {
+			x[i] = 0
+		}
+		if int64(p)*int64(ps) <= sa.Size() {
+			if _, err := a.ReadAt(x, int64(p-1)*int64(ps)); err != nil {
+				return err.Error()
+			}
+		}
+		if w, ok := overlay[p]; ok {
+			copy(x, w)
 		}
 		if _, err := io.ReadFull(b, y); err != nil {
 			return err.Error()
@@ -981,9 +1024,17 @@ func main() {
 			}
 		}
 	}
+	if os.Getenv("C17_REAL_ONLY") != "" {
+		realBig(res, root)
+		for _, f := range res.Findings {
+			fmt.Println(f.Kind, f.Signature, f.What)
+		}
+		fmt.Println("real-only run done; findings:", len(res.Findings), res.Notes)
+		return
+	}
 	rnd := hx.NewRand(o.Seed)
 	nWal := 60
-	snapSizes := []uint32{65536, 16384, 4096}
+	snapSizes := []uint32{65536, 16384}
 	if o.Tier == "thorough" {
 		nWal = 400
 		snapSizes = []uint32{65536, 32768, 16384, 8192, 4096, 2048, 1024, 512}
